@@ -425,6 +425,43 @@ def product_order_rule(chk, src):
                       "different operator when the factors share a degree of freedom and do not commute) and with the written sign / scalar factor")
 
 
+
+def term_validation_rule(chk, src):
+    """abstract run of Model.check_operator_terms: sums are flattened in order, terms with an exactly zero factor are dropped (and nothing else, whatever a tolerance test would say),
+    unknown degrees of freedom and non-operators are rejected"""
+    from ..syminterp import SymInterp, Sym, OpenSym, SymRaise
+    fi = src.func("renormalizer/model/model.py", "Model.check_operator_terms")
+
+    class OpV(Sym):
+        pass
+
+    class SumV(list):
+        pass
+
+    def mk(name, dofs, factor):
+        return OpV(name, dofs=list(dofs), factor=factor)
+    a, b, c, z = mk("a", ["x"], Sym("fa")), mk("b", ["x", "y"], Sym("fb")), mk("c", ["y"], Sym("fc")), mk("z", ["x"], 0)
+    outs = []
+    for verdict in (True, False):
+        it = SymInterp(src, None, {"Op": "Op", "OpSum": "OpSum", "np": OpenSym("np", isclose=lambda *x, **k: verdict, allclose=lambda *x, **k: verdict)})
+        it.builtins["isinstance"] = lambda x, t: (t == "Op" and isinstance(x, OpV)) or (t == "OpSum" and isinstance(x, SumV))
+        outs.append(it.call_function(fi, [Sym("model", dofs=["x", "y"]), [a, SumV([b, z]), c]]))
+    ok = all(isinstance(o, list) and len(o) == 3 and o[0] is a and o[1] is b and o[2] is c for o in outs)
+    chk.ob("term-validation", "sums flattened in order, exact zeros dropped, everything else kept", ok, fi.where, [[repr(x) for x in o] if isinstance(o, list) else repr(o) for o in outs], "[a, b, c] for [a, OpSum[b, 0*z], c]",
+           line=fi.node.lineno, detail="terms of the Hamiltonian must reach the MPO builder: a tolerance filter drops small couplings, a lost or reordered term changes the operator")
+    rej = []
+    for bad_terms, why in (([mk("u", ["nope"], Sym("f"))], "unknown degree of freedom"), (["not an operator"], "non-operator")):
+        it = SymInterp(src, None, {"Op": "Op", "OpSum": "OpSum", "np": OpenSym("np")})
+        it.builtins["isinstance"] = lambda x, t: (t == "Op" and isinstance(x, OpV)) or (t == "OpSum" and isinstance(x, SumV))
+        it.builtins["type"] = lambda x: "type"
+        try:
+            it.call_function(fi, [Sym("model", dofs=["x", "y"]), bad_terms])
+            rej.append(f"{why}: accepted")
+        except SymRaise:
+            pass
+    chk.ob("term-validation", "unknown degrees of freedom and non-operators are rejected", not rej, fi.where, rej or "both rejected", "ValueError", line=fi.node.lineno)
+
+
 def run(chk):
     import sympy as sp
     src = chk.src
@@ -444,6 +481,8 @@ def run(chk):
     chk.rule("product-order", "the four aggregations of Op.product iterate the same list in the same direction, and Op(...) receives them in (symbol, dof, factor, qn) positions", 2)
     chk.rule("operand-order", "abstract run of Op / OpSum / list arithmetic (*, +, -, unary -, +=, /): every term present once, operands in order, signs and scalar factors as written", 20)
     product_order_rule(chk, src)
+    chk.rule("term-validation", "Model.check_operator_terms (abstract run)", 2)
+    term_validation_rule(chk, src)
     chk.rule("factor-algebra", "factor of -a is -f(a); of a*s is f(a)*s; of prod is the product; of merged terms is the sum; a/s is a*(1/s)", 5)
 
     opc = src.cls(OP, "Op")
